@@ -282,10 +282,38 @@ func (c *Ctx) errValuePropagates(fn *ssa.Function, errVal ssa.Value, pos token.P
 	for i, iff := range nilTests {
 		nn := nilTestNonNilSucc[i]
 		if len(nn.Preds) != 1 {
+			// `if err == nil { … }; return x, err`: the test only adds work on
+			// the nil edge; fine if every return reachable from here returns the error itself.
+			all := returnedDirectly
+			for b := range ReachableFrom(nn) {
+				if r, ok := b.Instrs[len(b.Instrs)-1].(*ssa.Return); ok {
+					hit := false
+					for _, res := range r.Results {
+						if carriers[res] {
+							hit = true
+						}
+					}
+					if !hit {
+						all = false
+					}
+				}
+			}
+			if all {
+				continue
+			}
 			return ErrHandling{Kind: "unknown", Why: "non-nil branch of the error test is shared with other paths", Pos: iff.Pos()}
 		}
-		// Region dominated by nn must not leave except by return/panic.
+		// Region dominated by nn must not leave except by return/panic, or by
+		// jumping back to a block that dominates the call (retry: the call is re-issued).
 		bad := regionEscapes(nn)
+		if bad != nil && c.allowRetry {
+			if db, ok := errVal.(ssa.Instruction); ok && bad.Dominates(db.Block()) && bad != db.Block() {
+				bad = nil
+			} else if ok && bad == db.Block() {
+				// label block is the call's own block
+				bad = nil
+			}
+		}
 		if bad != nil {
 			return ErrHandling{Kind: "swallowed", Why: "on the err != nil edge control continues into the success path (block " + bad.String() + ")", Pos: posOf(bad.Instrs[0])}
 		}
